@@ -1,4 +1,5 @@
 import Abverif.Proofs.Lemmas.SessEnd
+import Abverif.Proofs.Lemmas.SessOrderStep
 import Abverif.Model.SessTrace
 /-
 C06 — WAMP sessions end cleanly on every path and leave nothing pending.
@@ -251,6 +252,43 @@ example : CleanEnd .sync [.open_ [], .msg .challenge [{ raises := true }], .msg 
     .msg .challenge [{ raises := true }], .closed []] := by decide
 example : CleanEnd .deferred [.open_ [], .pump, .msg .abort [], .pump, .msg (.welcome 9) [], .pump, .msg .abort [], .pump,
     .closed [], .pump] := by decide
+
+/-- **`callbacks_ordered_once` on Twisted** (since the repair of the F11 family). For EVERY history in which the
+transport is used the way the transports use it (`wfHist`: `onOpen` only without a transport, `onClose` and messages only
+with one) and user code — hooks, handlers, endpoints, the application — never calls `join()` itself, whatever else it
+does (raises, overrides without `super()`, `leave()`, `disconnect()`, requests of every kind), whatever the router sends
+(legal or not, any number of ABORT / WELCOME / CHALLENGE / GOODBYE at any position) and wherever the transport is lost:
+the trace Spec finds in the model's own trace no callback or observer out of the order connect, join, (ready,) leave,
+disconnect or a second time on one connection (`hookOrder`, `obsOrder`), no `onLeave` without a session end / aborted
+join (`leaveUnexpected`) and none missing (`leaveMissing`), and no message that is illegal in its phase handled as
+anything but a protocol violation (`gate`). Proof: an invariant between the model's state and the six fields of the
+Spec's reader these clauses depend on (`Lemmas/SessOrderSpec.lean`: `stepCheck_order`; `Lemmas/SessOrderStep.lean`:
+`OInv`, four phases, `order_step`). The other clauses of the Spec have their own theorems above. -/
+theorem callbacks_ordered_once_twisted (h : List SEv) (hw : wfHist false h = true) :
+    ∀ iv ∈ check .sync (traceOf (init .sync) h), iv.2.isOrder = false := by
+  intro iv hiv
+  cases hvo : iv.2.isOrder with
+  | false => rfl
+  | true =>
+    have := checkFrom_order 0 {} _ iv hiv hvo
+    rw [order_hist init_OInv h hw] at this
+    simp [oCheckFrom] at this
+
+/-- non-vacuity: the histories that refuted the statement before the repair, a conversation with raising hooks,
+overrides, local `leave()` / `disconnect()`, outstanding requests and a re-opened object are well-formed -/
+example : wfHist false [.open_ [], .msg .abort [], .msg .abort [], .closed []] = true := by decide
+example : wfHist false [.open_ [], .msg (.welcome 7) [], .msg .goodbye [], .msg (.welcome 9) [], .closed []] = true := by decide
+example : wfHist false [.open_ [{ raises := true }], .msg .challenge [{ ret := .val 1 }], .msg (.welcome 7) [{}, { raises := true }],
+    .api (.call 1 [] [] none .ok), .api .leave, .msg .goodbye [{ dflt := false, calls := [.api .disconnect] }], .msg .abort [],
+    .closed [{}, { raises := true }], .api (.call 1 [] [] none .ok), .open_ [], .msg .abort [{ raises := true }], .closed []] = true := by
+  decide
+
+/-- the hypothesis about `join()` is needed, and is the property's own: a session that joins again on the same transport
+(`join()` from inside `onLeave`; the code supports it, the record is cleared) shows join and leave a second time on one
+connection -/
+example : ¬ CleanEnd .sync [.open_ [], .msg (.welcome 7) [], .msg .goodbye [{ calls := [.api .join] }], .msg (.welcome 9) [],
+    .closed []] := by decide
+example : wfHist false [.open_ [], .msg (.welcome 7) [], .msg .goodbye [{ calls := [.api .join] }]] = false := by decide
 
 /-- what stays open is asyncio-only. GOODBYE one loop iteration after WELCOME — `onLeave` before `onJoin` -/
 theorem callbacks_ordered_once_fails_asyncio_goodbye_before_onJoin : ¬ CallbacksOrderedOnce := by
